@@ -70,7 +70,8 @@ class NextResponse(StreamingResponse):
                 (k, v) for k, v in response_headers if k.lower() != "set-cookie"
             )
 
-        body = ensure_next(app(request, start_response))
+        # PEP 3333: environ is a builtin dict (an application may copy it)
+        body = ensure_next(app(request._environ, start_response))
         response = NextResponse(body, status_code, headers)
         response.cookies.extend(RawCookie(line) for line in set_cookies)
         return response
